@@ -72,6 +72,36 @@ Proof.
 Qed.
 Print Assumptions C09_resolution_sound.
 
+(* THE PROPERTY: for every ordering p of the documents ds of a rule set (every name / id carried by one
+   document, no reference cycle), loading and converting p and ds ends the same way: either both raise
+   the same Sigma error (SigmaRuleNotFoundError at load time for a dangling reference), or both succeed
+   and return the same multiset of (rule, query).  Holds for every backend rendering (rplain, rcorr). *)
+Theorem C09_order_independent :
+  forall Q rplain rcorr p ds,
+    Permutation p ds -> unique_keys ds -> acyclic_docs ds ->
+    same_outcome p ds (pipeline Q rplain rcorr p) (pipeline Q rplain rcorr ds).
+Proof. exact order_independent. Qed.
+Print Assumptions C09_order_independent.
+
+(* the same, keyed by rule title; without the acyclicity premise whenever both orders convert *)
+Theorem C09_order_independent_by_title :
+  forall Q rplain rcorr p ds c' c,
+    Permutation p ds -> unique_keys ds ->
+    pipeline Q rplain rcorr p = Ok c' -> pipeline Q rplain rcorr ds = Ok c ->
+    Permutation (by_title p (c_emitted c')) (by_title ds (c_emitted c)).
+Proof. exact order_independent_by_title. Qed.
+Print Assumptions C09_order_independent_by_title.
+
+(* the document-level acyclicity premise implies the position-level one used by C09_topo *)
+Theorem C09_acyclic_docs_index :
+  forall ds rr, resolve_all ds = Some rr -> acyclic_docs ds -> acyclic rr.
+Proof. exact acyclic_docs_index. Qed.
+Print Assumptions C09_acyclic_docs_index.
+
+(* non-vacuity: the premises hold for the five-document witness set of D22 *)
+Example C09_premises_inhabited : unique_keys wit_docs /\ acyclic_docs wit_docs.
+Proof. exact wit_premises. Qed.
+
 (* DEFECT D22 (repaired by a `fix:` commit): the ORIGINAL ordering step sorted(self.rules) with
    __lt__ = "is referenced by" (model: CPython's binary insertion sort, pipeline_sorted).
    FULL STATEMENT that was false of the original code:
